@@ -10,5 +10,8 @@ UNITS = {
     "fe64": {"driver": "Fe64", "harness": "ops_fe64", "gens": "fe64", "props": {}},
     "poly1305": {"driver": "Poly1305", "harness": "ops_poly1305", "gens": "poly1305", "props": {}},
     "scalar64": {"driver": "Scalar64", "harness": "ops_scalar64", "gens": "scalar64", "props": {}},
+    "sha2": {"driver": "Sha2", "harness": "ops_sha2", "gens": "sha2", "props": {}},
+    "sha3": {"driver": "Sha3", "harness": "ops_sha3", "gens": "sha3", "props": {}},
+    "stream": {"driver": "Stream", "harness": "ops_stream", "gens": "stream", "props": {}},
     "sha1ripemd": {"driver": "Sha1Ripemd", "harness": "ops_sha1ripemd", "gens": "sha1ripemd", "props": {}},
 }
